@@ -159,6 +159,7 @@ def abstract_trace(res, new_payload, out):
         merged.append(e)
     return {
         "cfg": case.group,
+        "name": case.nameclass,
         "pre": res["pre"],
         "events": merged,
         "end": {"how": out["how"], "dest": out["dest"], "tmp": coarse(out["tmp"])},
